@@ -687,8 +687,12 @@ def _gen_gradient(draw, cx):
         a["gradientUnits"] = units
     user = units == "userSpaceOnUse"
     pct = draw(st.booleans())
+    force_gt = None
 
     def coord(frac, horizontal):
+        if frac == 2e-05:
+            # a coordinate below 1e-4: Python prints such floats with an exponent (2e-05), which must be read back
+            return "0.002%" if pct else "0.00002"
         if pct:
             return f"{fmt(round(frac * 100, 1))}%"
         if user:
@@ -697,7 +701,7 @@ def _gen_gradient(draw, cx):
 
     if kind == "linearGradient":
         if draw(st.integers(0, 3)):
-            a["x1"], a["y1"] = coord(draw(st.sampled_from([0, 0.1, 0.25])), True), coord(draw(st.sampled_from([0, 0.2])), False)
+            a["x1"], a["y1"] = coord(draw(st.sampled_from([0, 0.1, 0.25, 2e-05])), True), coord(draw(st.sampled_from([0, 0.2])), False)
             a["x2"], a["y2"] = coord(draw(st.sampled_from([1, 0.9, 0.6])), True), coord(draw(st.sampled_from([0, 1, 0.7])), False)
     else:
         if draw(st.integers(0, 3)):
@@ -710,8 +714,16 @@ def _gen_gradient(draw, cx):
                 a["r"] = draw(st.sampled_from(["0.5", "0.4", "0.7"]))
             if draw(st.integers(0, 2)) == 0:
                 a["fx"] = a["cx"]
+                if user and not pct and cx.nid % 2 == 0:
+                    # an off-centre focal point that a pure translation moves exactly onto coordinate 0: "fx is 0" and
+                    # "no fx" are different gradients
+                    a["fx"] = fmt(round(float(a["cx"]) - 0.2 * float(a["r"]), 2))
+                    force_gt = f"translate({fmt(-float(a['fx']))} 8)"
     if draw(st.integers(0, 2)) == 0:
         a["gradientTransform"] = draw(transform_list(box)) if user else draw(st.sampled_from(["translate(0.1 0.05)", "rotate(30 0.5 0.5)", "scale(0.8)", "translate(0.2) scale(1 0.5)"]))
+    if force_gt:
+        a["gradientTransform"] = force_gt
+        cx.feat.add("focal-point-translated-onto-0")
     if draw(st.integers(0, 3)) == 0:
         a["spreadMethod"] = draw(st.sampled_from(["pad", "reflect", "repeat"]))
     g = node(kind, a)
